@@ -19,6 +19,20 @@ if "--tier" in sys.argv:
 keep = "--keep" in sys.argv
 root = os.path.join(os.path.dirname(os.path.abspath(__file__)), "..")
 scratch = f"/tmp/verif-mut/{pid}-{os.getpid()}"
+# at most 3 isolated runs at a time (each does its own cargo build): take one of 3 slot locks
+import fcntl, time
+_slot = None
+while _slot is None:
+    for i in range(3):
+        f = open(f"/tmp/verif-mut-slot-{i}.lock", "w")
+        try:
+            fcntl.flock(f, fcntl.LOCK_EX | fcntl.LOCK_NB)
+            _slot = f  # mutcheck-slot held until exit
+            break
+        except OSError:
+            f.close()
+    if _slot is None:
+        time.sleep(5)
 os.makedirs(scratch, exist_ok=True)
 try:
     subprocess.check_call(["rsync", "-a", "--exclude", "/target", "--exclude", "/.git", "/repo/", scratch + "/repo/"])
